@@ -216,7 +216,9 @@ class FixtureSuite(unittest.TestSuite):
             self._fixture.cleanUp()
 
     def sort_tests(self):
-        self._tests = sorted_tests(self, True)
+        # _tests has to stay a list (sorted_tests returns a TestSuite):
+        # filter_by_ids assigns to a slice of it and addTest appends to it.
+        self._tests = list(sorted_tests(self, True))
 
 
 def _flatten_tests(suite_or_case, unpack_outer=False):
